@@ -58,10 +58,10 @@ def cases(tier):
             if tier == "quick" and gs[1] == 3 and al.nedges(gs[2]) > 3:
                 continue
             yield {"kind": "ll", "gs": list(gs), "anchor": ai, "T": 2 if tier == "quick" else 3, "tier": tier, "metric": "latlon"}
-    # the planar metric at another magnitude: the same maps with coordinates (and all distance parameters) scaled by 2^-14
-    # (roads of length ~1e-4, e.g. degrees used as planar coordinates) and by 2^23 (projected metres); emitting-only, since
+    # the planar metric at another magnitude: the same maps with coordinates (and all distance parameters) scaled by 2^-16
+    # (roads of length ~3e-5, e.g. degrees used as planar coordinates) and by 2^23 (projected metres); emitting-only, since
     # the non-emitting search has absolute tolerances (known finding D11)
-    for k in (-14, 23):
+    for k in (-16, 23):
         for gs in ms.graph_slice("n3"):
             yield {"kind": "scaled", "gs": list(gs), "k": k, "T": 2 if tier == "quick" else 3, "tier": tier, "metric": f"planar x 2^{k}"}
 
